@@ -211,3 +211,28 @@ func gatedField(flag bool, n int) gated {
 func rawFromInput(b []byte) asn1.RawValue {
 	return asn1.RawValue{FullBytes: b}
 }
+
+// LINT-NILRESULT: (nil, nil) answered, method called on the value without a nil test.
+type namer interface{ name() string }
+
+type plain string
+
+func (p plain) name() string { return string(p) }
+
+func lookupNamer(k string) (namer, error) {
+	switch k {
+	case "a":
+		return plain("a"), nil
+	case "":
+		return nil, errors.New("empty")
+	}
+	return nil, nil
+}
+
+func useMaybeNil(k string) string {
+	n, err := lookupNamer(k)
+	if err != nil {
+		return ""
+	}
+	return n.name()
+}
